@@ -351,6 +351,14 @@ class Sandbox:
         Returns:
             bool: Whether the execution was still this thread's to finish.
         """
+        # The code may have lowered the recursion limit to just above its own
+        # depth: put it back first (without going any deeper), or recording
+        # what happened would itself fail
+        if self._current_patches:
+            for a_patch in self._current_patches[-1]:
+                if type(a_patch) is _RecursionLimitGuard and a_patch.limit is not None:
+                    if sys.getrecursionlimit() < a_patch.limit:
+                        sys.setrecursionlimit(a_patch.limit)
         with self._execution_lock:
             if context.abandoned:
                 return False
